@@ -202,7 +202,7 @@ def check_c09(pid, tier, seed, rep):
                 if r["err_class"] != r["kind"]:
                     probs.append("planted %s refused with an unrelated diagnostic: %s" % (r["kind"], r["stderr"][-300:]))
                 elif not r["err_names_types"]:
-                    probs.append("diagnostic does not name the types involved (%s): %s" % (r["decl"]["expect"]["types"], r["stderr"][-300:]))
+                    probs.append("diagnostic does not name the types involved (%s): %s" % (r["decl"]["expect"].get("types") or r["decl"]["expect"].get("types_any"), r["stderr"][-300:]))
             if not r.get("untouched", True):
                 probs.append("output file was created or modified although the declaration must be refused")
             if len(samples) < 3:
